@@ -404,7 +404,7 @@ def run(ctx):
             exp.append((bid, name, setup % p, driver % p))
         # closures marshalled while their environment is still on the creator's stack, with the captured slots at various register numbers
         for ci in range(4):
-            npad = rng.choice([0, 5, 28, 29, 30, 31, 32, 33, 40, 62, 63, 64, 65, 100, 130])
+            npad = rng.choice([0, 5, 28, 29, 30, 31, 32, 33, 40, 62, 63, 64, 65, 100, 130]) if rng.random() < 0.5 else rng.randrange(0, 135)
             a, b = rng.choice([0, 1, 7, -5]), rng.choice([1, 2, 5])
             pads = " ".join("(def p%d %d)" % (i, i) for i in range(npad))
             usep = "(+ p0 p%d)" % (npad - 1) if npad else "0"
@@ -415,6 +415,20 @@ def run(ctx):
             lines.append("(do %s\n (def drv %s)\n (report \"%s\" \"copy2-independent\" (fn [] (drv inside2)))\n (report \"%s\" \"orig\" (fn [] (drv orig)))\n"
                          " (report \"%s\" \"copy\" (fn [] (drv inside))))" % (setup, drv, oid, oid, oid))
             exp.append((oid, "onstack-env-pads%s" % ("<32" if npad < 29 else ">=32"), setup, drv))
+        # a closure FACTORY marshalled as a function value (its definition carries the closure bitset) with every slot count from a few to 135:
+        # closures made by the copy must capture like those made by the original
+        for ci in range(4):
+            npad = rng.randrange(0, 135)
+            a = rng.choice([0, 1, 7, -5])
+            pads = " ".join("(def q%d %d)" % (i, i) for i in range(npad))
+            useq = "(+ q0 q%d)" % (npad - 1) if npad else "0"
+            fid = "f%d" % ci
+            setup = "(def orig (fn factory [k] %s (var n k) (var m %d) [(fn bump [] (+= m 1) (++ n)) (fn peek [] [n m %s])]))" % (pads, a, useq)
+            drv = "(fn [o] (def [bump peek] (o 10)) (string/format \"%j\" [(bump) (bump) (peek) (do (def [b2 p2] (o 20)) (b2) (p2)) (peek)]))"
+            lines.append("(do %s\n (def drv %s)\n (def c1 (protect (rt-dict orig))) (def c2 (protect (rt-dict (rt-dict orig))))\n"
+                         " (report \"%s\" \"copy2-independent\" (fn [] (drv (get-ok c2))))\n (report \"%s\" \"orig\" (fn [] (drv orig)))\n (report \"%s\" \"copy\" (fn [] (drv (get-ok c1)))))" %
+                         (setup, drv, fid, fid, fid))
+            exp.append((fid, "closure-factory-slots", setup, drv))
         # asm(disasm f)
         for ci in range(8):
             p = dict(a=rng.choice([0, 1, 3, 9]), b=rng.choice([1, 2, 5]), pad=" ".join("(+= r %d)" % (i % 7) for i in range(rng.choice([3, 40, 130, 300]))))
